@@ -1,0 +1,21 @@
+//go:build verif
+
+// Verification hook (compiled only with -tags verif): lets a model-based test harness hand the CNI
+// plugins an in-memory datastore client instead of the one built from the environment.
+package utils
+
+import (
+	"github.com/projectcalico/calico/cni-plugin/pkg/types"
+	client "github.com/projectcalico/calico/libcalico-go/lib/clientv3"
+)
+
+// VerifClientFactory, when non-nil, is consulted first by CreateClient.
+var VerifClientFactory func(conf types.NetConf) (client.Interface, error)
+
+func verifClient(conf types.NetConf) (client.Interface, error, bool) {
+	if VerifClientFactory == nil {
+		return nil, nil, false
+	}
+	c, err := VerifClientFactory(conf)
+	return c, err, true
+}
